@@ -23,8 +23,10 @@ TrInit == l = 1 /\ url = <<>> /\ opt = <<>> /\ stage = "trace" /\ cur = <<>>
 TrNext ==
   /\ l <= Len(Tr)
   /\ LET e == Tr[l]
-         bad == Failing(e.u, e.dp, e.quoted, e.sf, e.r, e.parts, e.exc)
-         drift == ~SplitAgrees(e.u, e.py_u) \/ (e.exc = "" /\ ~SplitAgrees(e.r, e.py_r))
+         \* the standard parser accepted the input and rejects the result: the result does not "re-parse to the same ..."
+         unparsed == e.exc = "" /\ e.py_u.ok /\ ~e.py_r.ok
+         bad == Failing(e.u, e.dp, e.quoted, e.sf, e.r, e.parts, e.exc) \cup (IF unparsed THEN {"result-reparses"} ELSE {})
+         drift == ~SplitAgrees(e.u, e.py_u) \/ (e.exc = "" /\ ~unparsed /\ ~SplitAgrees(e.r, e.py_r))
      IN /\ url' = e.u /\ opt' = [dp |-> e.dp, quoted |-> e.quoted, sf |-> e.sf] /\ stage' = "trace" /\ cur' = e.r
         /\ (IF bad = {} THEN TRUE ELSE PrintT(<<"VERDICT", e.id, bad, Triggers(e)>>))
         /\ (IF drift THEN PrintT(<<"DRIFT", e.id>>) ELSE TRUE)
